@@ -69,6 +69,13 @@ pub enum Req {
     /// force-close signature for the current holder commitment (number 0): marks the channel
     /// closed, which the balance reports as sweeping
     HSignClose { ch: u8 },
+    /// first counterparty commitment (number 0) on the stub channel of the chain scenario: only
+    /// possible once SetupStub has made it ready (a request racing the setup of its own channel)
+    StubCSign,
+    /// keysend of 600 000 msat for a fresh hash through a VelocityApprover (limit 1 000 000 msat
+    /// per hour) shared by all threads, as vlsd's approver chain does: two of them fit one at a
+    /// time only
+    ApproverKeysend { h: u8 },
 }
 
 #[derive(Clone, Debug, Serialize, Deserialize)]
@@ -110,6 +117,7 @@ fn req_strat_pay() -> impl Strategy<Value = Req> {
     let ch = || 0u8..2;
     prop_oneof![
         10 => (ch(), any::<bool>()).prop_map(|(ch, phase1)| Req::CSignPay { ch, phase1 }),
+        6 => (0u8..3).prop_map(|h| Req::ApproverKeysend { h }),
         2 => (0u8..2).prop_map(|h| Req::Approve { h }),
         2 => (ch(), 1u8..3, 0u8..2).prop_map(|(ch, n, variant)| Req::CSign { ch, n, variant }),
         1 => Just(Req::NodeBalance),
@@ -151,6 +159,7 @@ fn req_strat_chain() -> impl Strategy<Value = Req> {
         2 => Just(Req::AddBlock),
         4 => Just(Req::SignOnchain),
         4 => Just(Req::SetupStub),
+        4 => Just(Req::StubCSign),
         6 => (0u8..4).prop_map(|ch| Req::AddBlockClose { ch }),
     ]
 }
@@ -261,6 +270,9 @@ struct Ctx2 {
     close_txs: Vec<Transaction>,
     /// (id, setup) of the stub of the chain scenario
     stub: Option<(lightning_signer::channel::ChannelId, lightning_signer::channel::ChannelSetup)>,
+    /// counterparty point 0 and content of commitment 0 of the stub channel
+    stub_c0: Option<(PublicKey, Content)>,
+    approver: vls_protocol_signer::approver::VelocityApprover<vls_protocol_signer::approver::NegativeApprover>,
 }
 
 impl Ctx2 {
@@ -327,6 +339,15 @@ fn prepare(f: &Fresh) -> Ctx2 {
         outbound: w.chans.iter().map(|c| c.spec.outbound).collect(),
         close_txs: f.close_txs.clone(),
         stub: if f.chain { w.chans.get(2).map(|c| (c.id0.clone(), c.setup.clone())) } else { None },
+        stub_c0: if f.chain { w.chans.get(2).map(|c| (c.cp.point(&secp, 0), content_chain(c.spec.outbound, 0, 0))) } else { None },
+        approver: vls_protocol_signer::approver::VelocityApprover::new(
+            w.clock.clone(),
+            lightning_signer::util::velocity::VelocityControl::new(lightning_signer::util::velocity::VelocityControlSpec {
+                limit_msat: 1_000_000,
+                interval_type: lightning_signer::util::velocity::VelocityControlIntervalType::Hourly,
+            }),
+            vls_protocol_signer::approver::NegativeApprover(),
+        ),
     }
 }
 
@@ -449,6 +470,20 @@ fn exec(cx: &Ctx2, r: &Req) -> String {
                     node.get_persister().update_tracker(&node.get_id(), &tracker).expect("persist tracker");
                     "ok:".into()
                 }
+                Err(_) => "err".into(),
+            }
+        }
+        Req::StubCSign => match (&cx.stub, &cx.stub_c0) {
+            (Some((id0, _)), Some((p0, c))) => {
+                st(node.with_channel(id0, |chn| chn.sign_counterparty_commitment_tx_phase2(p0, 0, c.feerate, c.to_holder, c.to_cp, vec![], vec![])).map(|(s, h)| format!("{}:{}", s, h.len())))
+            }
+            _ => "err".into(),
+        },
+        Req::ApproverKeysend { h } => {
+            use vls_protocol_signer::approver::Approve;
+            let payee = PublicKey::from_secret_key(&bitcoin::secp256k1::Secp256k1::new(), &SecretKey::from_slice(&[5u8; 32]).unwrap());
+            match cx.approver.handle_proposed_keysend(node, payee, phash(20 + *h), 600_000) {
+                Ok(b) => format!("ok:{}", b),
                 Err(_) => "err".into(),
             }
         }
@@ -582,6 +617,26 @@ impl Prop for C20 {
                 let i = threads.iter().enumerate().max_by_key(|(_, t)| t.len()).map(|(i, _)| i).unwrap();
                 threads[i].pop();
             }
+            // the same keysend proposed through the approver by two threads at once is a recorded
+            // finding (kept as a fixed case): generated programs use distinct hashes across threads
+            let mut owner: std::collections::BTreeMap<u8, usize> = Default::default();
+            let mut fresh = 3u8;
+            for (ti, t) in threads.iter_mut().enumerate() {
+                for r in t.iter_mut() {
+                    if let Req::ApproverKeysend { h } = r {
+                        match owner.get(h) {
+                            Some(o) if *o != ti => {
+                                *h = fresh;
+                                fresh += 1;
+                                owner.insert(*h, ti);
+                            }
+                            _ => {
+                                owner.insert(*h, ti);
+                            }
+                        }
+                    }
+                }
+            }
             // a commitment transaction confirms once: at most one AddBlockClose per channel
             let mut seen = BTreeSet::new();
             for t in threads.iter_mut() {
@@ -604,6 +659,10 @@ impl Prop for C20 {
         let snapshot = (proptest::collection::vec(proptest::collection::vec(req_strat_snapshot(), 1..3), 2..4), any::<bool>(), any::<u64>())
             .prop_map(|(threads, pct, sched_seed)| Case { threads: trim(threads), pct, sched_seed, chain: false });
         prop_oneof![3 => plain, 3 => chain, 2 => pay, 2 => snapshot].boxed()
+    }
+
+    fn fixed_cases(&self) -> Vec<Case> {
+        vec![Case { threads: vec![vec![Req::ApproverKeysend { h: 0 }], vec![Req::ApproverKeysend { h: 0 }]], pct: false, sched_seed: 11, chain: false }]
     }
 
     fn run(&self, case: &Case, stt: &mut CaseStats, ctx: &Ctx) -> Result<(), Violation> {
@@ -633,7 +692,7 @@ impl Prop for C20 {
                             pos[*t] += 1;
                             replies[*t].push(exec(&cx, r));
                         }
-                        let state = final_state(w);
+                        let state = format!("{}|approver={}", final_state(w), cx.approver.control().velocity());
                         seq_out2.lock().unwrap().insert(Outcome { replies, state });
                     }
                 });
@@ -672,7 +731,7 @@ impl Prop for C20 {
                     handles.push(shuttle::thread::spawn(move || reqs.iter().map(|r| exec(&cx, r)).collect::<Vec<String>>()));
                 }
                 let replies: Vec<Vec<String>> = handles.into_iter().map(|h| h.join().unwrap()).collect();
-                let state = final_state(w);
+                let state = format!("{}|approver={}", final_state(w), cx.approver.control().velocity());
                 let o = Outcome { replies, state };
                 executed2.fetch_add(1, std::sync::atomic::Ordering::Relaxed);
                 if !seq2.contains(&o) {
@@ -767,8 +826,18 @@ impl Prop for C20 {
             }
             Ok(_) => {
                 if let Some(o) = bad.lock().unwrap().clone() {
+                    // the one recorded finding: the same keysend proposed through the approver by two
+                        // threads at once (and nothing else in the program)
+                        let all_ak = threads.iter().flatten().all(|r| matches!(r, Req::ApproverKeysend { .. }));
+                        let mut dup_across = false;
+                        for (i, a) in threads.iter().enumerate() {
+                            for b in threads.iter().skip(i + 1) {
+                                dup_across |= a.iter().any(|x| b.contains(x));
+                            }
+                        }
+                        let sig = if all_ak && dup_across { "C20:outcome-not-sequentially-explainable:same-keysend-proposed-twice-through-approver" } else { "C20:outcome-not-sequentially-explainable" };
                     ctx.report(stt, Violation::new(
-                        "C20:outcome-not-sequentially-explainable",
+                        sig,
                         format!("program {:?}: a schedule produced replies {:?} and a final state that no sequential interleaving ({} tried) produces", case.threads, o.replies, orders.len()),
                     ))?;
                 }
